@@ -191,21 +191,29 @@ def _worker(args):
                 stats.absorb(case, _quiet_check(mod, case), suppressed_sigs)
 
             collect()
-            # shrink at most 3 new signatures per shard, reusing the same seeded sequence;
-            # fall back to the smallest observed case when shrinking does not finish
-            if not budget.get("no_shrink"):
-                for sig in [x for x in sorted(stats.failures) if not x.startswith("HARNESS:")][:3]:
-                    slot = stats.failures[sig]
-                    minimal = _find_minimal(mod, strat, derived, n, sig, budget)
-                    if minimal is not None and jsize(minimal[0]) <= slot["size"]:
-                        slot["case"], slot["message"] = minimal
-                        slot["size"] = jsize(minimal[0])
-                        slot["shrunk"] = True
-        return ("ok", shard, stats.export())
+        out = stats.export()
+        for slot in out["failures"].values():
+            slot["shard"] = shard
+        return ("ok", shard, out)
     except HarnessError as e:
         return ("harness", shard, f"{e}\n{traceback.format_exc()}")
     except BaseException as e:
         return ("harness", shard, f"{type(e).__name__}: {e}\n{traceback.format_exc()}")
+
+
+def _shrink_job(args):
+    """Phase 2: Hypothesis-shrink one signature by replaying the seeded sequence of the shard
+    that found it (runs in the pool, one job per distinct signature)."""
+    pid, tier, seed, shard, nshards, excl, sig = args
+    try:
+        mod = importlib.import_module(f"vfw.props.{pid.lower()}")
+        budget = mod.budget(tier)
+        strat = mod.strategy(tier, excl)
+        n = budget.get("examples", 0) // nshards
+        derived = seed * 1_000_003 + shard
+        return sig, _find_minimal(mod, strat, derived, n, sig, budget)
+    except BaseException:
+        return sig, None
 
 
 def _find_minimal(mod, strat, derived, n, sig, budget):
@@ -340,6 +348,20 @@ def cmd_campaign(mod, tier, seed):
                 merged["failures"][sig] = slot
             else:
                 cur["count"] += slot["count"]
+
+    # 2b. shrink (Hypothesis) one case per distinct new signature, in parallel; fall back to
+    #     the smallest observed case when shrinking does not finish within its cap
+    todo = [(sig, slot) for sig, slot in sorted(merged["failures"].items())
+            if not sig.startswith("HARNESS:") and "shard" in slot and not slot.get("enum")][:8]
+    if todo and not mod.budget(tier).get("no_shrink") and hasattr(mod, "strategy"):
+        sjobs = [(pid, tier, seed, slot["shard"], nshards, excl, sig) for sig, slot in todo]
+        with ctx.Pool(min(nshards, len(sjobs))) as pool:
+            for sig, minimal in pool.map(_shrink_job, sjobs, chunksize=1):
+                slot = merged["failures"][sig]
+                if minimal is not None and jsize(minimal[0]) <= slot["size"]:
+                    slot["case"], slot["message"] = minimal
+                    slot["size"] = jsize(minimal[0])
+                    slot["shrunk"] = True
 
     # 3. every candidate violation is confirmed from its replay file in a fresh process
     (VERIF / "replays").mkdir(exist_ok=True)
